@@ -272,10 +272,31 @@ type lcase struct {
 	Ctx  int  `json:"context"`
 	FI   int  `json:"fileinfo"`
 	Swap bool `json:"swap,omitempty"`
+	// LineLen > 0: every third line is padded to this many bytes with
+	// non-periodic filler (buffer boundaries of a line reader).
+	LineLen int `json:"line_len,omitempty"`
+}
+
+func padLine(s string, n, salt int) string {
+	b := []byte(s + " ")
+	x := uint64(salt)*2654435761 + 1
+	for len(b) < n {
+		x = x*6364136223846793005 + 1442695040888963407
+		const filler = "abcdefghijklmnopqrstuvwxyz0123456789 -+<>@\\"
+		b = append(b, filler[(x>>33)%uint64(len(filler))])
+	}
+	return string(b[:max(n, len(s))])
 }
 
 func checkLongCase(l lcase) *mc.Failure {
 	al, L, R := mdiffh.LongPair(l.N, l.Gap)
+	if l.LineLen > 0 {
+		for i := range al {
+			if i%3 != 1 {
+				al[i] = padLine(al[i], l.LineLen, i)
+			}
+		}
+	}
 	if l.Swap {
 		L, R = R, L
 	}
@@ -284,7 +305,7 @@ func checkLongCase(l lcase) *mc.Failure {
 		if len(f.Msg) > 900 {
 			f.Msg = f.Msg[:900] + "..."
 		}
-		f.Msg = fmt.Sprintf("long pair (%d lines, %d unchanged lines between edits, context %d, swap=%v): %s", l.N, l.Gap, l.Ctx, l.Swap, f.Msg)
+		f.Msg = fmt.Sprintf("long pair (%d lines, %d unchanged lines between edits, context %d, swap=%v, long lines %d bytes): %s", l.N, l.Gap, l.Ctx, l.Swap, l.LineLen, f.Msg)
 	}
 	return f
 }
@@ -438,8 +459,14 @@ func main() {
 				for gap := 0; gap <= 11; gap++ {
 					for _, ctx := range []int{0, 1, 2, 3, 5, 8} {
 						fi := (n + gap + ctx) % 3
-						cases = append(cases, lcase{n, gap, ctx, fi, false}, lcase{n, gap, ctx, (fi + 1) % 3, true})
+						cases = append(cases, lcase{N: n, Gap: gap, Ctx: ctx, FI: fi}, lcase{N: n, Gap: gap, Ctx: ctx, FI: (fi + 1) % 3, Swap: true})
 					}
+				}
+			}
+			// long lines: sizes around the usual reader buffers
+			for _, ll := range mc.Pick(r, []int{255, 4095, 4096, 4097, 16383, 16384, 16385, 65537}, []int{255, 4095, 4096, 4097, 8192, 16383, 16384, 16385, 16386, 32769, 65535, 65536, 65537, 1 << 20}) {
+				for _, ctx := range []int{0, 1, 3} {
+					cases = append(cases, lcase{N: 12, Gap: 3, Ctx: ctx, FI: ctx % 3, LineLen: ll}, lcase{N: 12, Gap: 1, Ctx: ctx, FI: (ctx + 1) % 3, Swap: true, LineLen: ll})
 				}
 			}
 			mc.ParallelFor(len(cases), r.Workers, func(i int) {
@@ -455,8 +482,8 @@ func main() {
 			}
 			n := int64(len(cases))
 			r.AddEval(n, n, n, n)
-			r.Rule("files of 12...1100/10100 lines with an edit every gap+1 lines (gap 0...11), context 0...8, three header variants, both directions: line numbers of up to five digits, dozens to thousands of hunks; the same meaning and round-trip oracles as the short cases")
-			r.Sample(lcase{1100, 4, 3, 1, false})
+			r.Rule("files of 12...1100/10100 lines with an edit every gap+1 lines (gap 0...11), context 0...8, three header variants, both directions: line numbers of up to five digits, dozens to thousands of hunks; and 12-line files whose lines are padded to 255...65537 bytes (1 MiB in the thorough tier); the same meaning and round-trip oracles as the short cases")
+			r.Sample(lcase{N: 1100, Gap: 4, Ctx: 3, FI: 1})
 		},
 		Replay: func(c mc.Case) *mc.Failure {
 			var l lcase
